@@ -362,7 +362,7 @@ func runC12(c *Ctx, r *Report) {
 			if as, ok := nd.(*ast.AssignStmt); ok {
 				for i, l := range as.Lhs {
 					if v, _ := p.FieldSel(sc, l); v == clockField && i < len(as.Rhs) {
-						if definitelyNonNil(ast.Unparen(as.Rhs[i])) {
+						if p.freshNonNil(sc, as.Rhs[i], 0) {
 							f["clockNonNil"] = true
 						} else {
 							delete(f, "clockNonNil")
